@@ -70,6 +70,9 @@ func (x *Exec) call(fr *Frame, st *State, ci ssa.CallInstruction) []string {
 				}
 				bind[fmt.Sprintf("arg%d", i)] = specVal{term: x.val(fr, st, a), typ: a.Type()}
 			}
+			if ci.Common().IsInvoke() {
+				bind["recv"] = specVal{term: x.val(fr, st, ci.Common().Value), typ: ci.Common().Value.Type()}
+			}
 			x.applyGhostEffects(fr, st, effs, "true", bind)
 		}
 	}
